@@ -158,11 +158,16 @@ type c06Case struct {
 	trunc int // >=0: truncate to this length
 	pos   int // substitution position (trunc < 0)
 	val   byte
+	w     int    // 2 or 4: little-endian field substitution at pos (value wv) instead of one byte
+	wv    uint32
 }
 
 func (cs c06Case) String(seeds []c06Seed) string {
 	if cs.trunc >= 0 {
 		return fmt.Sprintf("%s truncated to %d/%d bytes", seeds[cs.seed].name, cs.trunc, len(seeds[cs.seed].data))
+	}
+	if cs.w > 0 {
+		return fmt.Sprintf("%s u%dle[%d]=0x%0*x", seeds[cs.seed].name, cs.w*8, cs.pos, cs.w*2, cs.wv)
 	}
 	return fmt.Sprintf("%s byte[%d]=0x%02x (was 0x%02x)", seeds[cs.seed].name, cs.pos, cs.val, seeds[cs.seed].data[cs.pos])
 }
@@ -188,6 +193,47 @@ func c06Cases(seeds []c06Seed, thorough bool) []c06Case {
 				if !seen[v] {
 					seen[v] = true
 					out = append(out, c06Case{seed: si, trunc: -1, pos: p, val: v})
+				}
+			}
+		}
+		// FIELD-level substitutions in the header region (counts, keys, cardinalities, offsets are
+		// 16/32-bit little-endian fields; a single byte cannot reach their boundary values): at every
+		// header position, a 2-byte and a 4-byte field take every value within `win` of the
+		// boundaries 0, 2^15|2^31, 2^16|2^32 (wrapping) and of the payload length. Thorough also
+		// walks every 4-byte field value in [2^32-8200, 2^32) and len +- 8200 at offset-aligned
+		// positions (any container body size up to a bitmap's 8192 bytes can wrap around 2^32).
+		win := 16
+		L := uint32(len(s.data))
+		for p := 0; p < s.hdr && p+2 <= len(s.data); p++ {
+			seen16 := map[uint32]bool{}
+			for _, ctr := range []uint32{0, 1 << 15, L} {
+				for d := -win; d <= win; d++ {
+					v := (ctr + uint32(d)) & 0xFFFF
+					if !seen16[v] {
+						seen16[v] = true
+						out = append(out, c06Case{seed: si, trunc: -1, pos: p, w: 2, wv: v})
+					}
+				}
+			}
+			if p+4 > len(s.data) {
+				continue
+			}
+			seen32 := map[uint32]bool{}
+			add32 := func(v uint32) {
+				if !seen32[v] {
+					seen32[v] = true
+					out = append(out, c06Case{seed: si, trunc: -1, pos: p, w: 4, wv: v})
+				}
+			}
+			for _, ctr := range []uint32{0, 1 << 16, 1 << 31, L} {
+				for d := -win; d <= win; d++ {
+					add32(ctr + uint32(d))
+				}
+			}
+			if thorough && (s.hdr-p)%4 == 0 {
+				for d := 1; d <= 8200; d++ {
+					add32(uint32(0) - uint32(d))
+					add32(L + uint32(d))
 				}
 			}
 		}
@@ -228,6 +274,12 @@ func c06Mutate(seeds []c06Seed, cs c06Case) []byte {
 		return append([]byte{}, d[:cs.trunc]...)
 	}
 	p := append([]byte{}, d...)
+	if cs.w > 0 {
+		for i := 0; i < cs.w; i++ {
+			p[cs.pos+i] = byte(cs.wv >> (8 * uint(i)))
+		}
+		return p
+	}
 	p[cs.pos] = cs.val
 	return p
 }
@@ -277,7 +329,7 @@ func c06PQLTokens() []string {
 
 func TestVerif_C06(t *testing.T) {
 	c := vx.NewCheck("C06", "fault_enumeration",
-		"complete neighbourhoods of valid inputs (every truncation, every single-byte substitution from a value set; all 256 values in header regions) of 8 roaring seed encodings x 5 entry points; import-worker payload lengths; every PQL token string up to L tokens (parse, and execute when it parses); cluster message type bytes x bodies; each case runs in a worker process, a dead worker is attributed to its case; distinct = distinct (entry point, outcome class, seed) triples")
+		"complete neighbourhoods of valid inputs (every truncation, every single-byte substitution from a value set; all 256 values in header regions; every 16/32-bit header field at every header position set to every value within 16 of 0, 2^15/2^31, 2^16/2^32 and the payload length — thorough: every 32-bit value in [2^32-8200,2^32) and (len,len+8200] at offset-aligned positions) of 8 roaring seed encodings x 5 entry points; import-worker payload lengths; every PQL token string up to L tokens (parse, and execute when it parses); cluster message type bytes x bodies; each case runs in a worker process, a dead worker is attributed to its case; distinct = distinct (entry point, outcome class, seed) triples")
 	seeds := c06Seeds()
 	cases := c06Cases(seeds, c.Thorough())
 	progDir := vx.Scratch()
